@@ -56,6 +56,12 @@ func (m *Mutex) Unlock() {
 		panic("sync: unlock of unlocked mutex")
 	}
 	m.locked = false
+	// a scheduling point after the release: code that follows an Unlock may be
+	// preempted before its next synchronisation operation (exposes accesses moved
+	// out of the critical section)
+	if r := rt.Cur(); r != nil {
+		r.Point(rt.Op{Kind: "mutex.unlock", Obj: &m.o})
+	}
 }
 
 type RWMutex struct {
@@ -92,6 +98,9 @@ func (m *RWMutex) Unlock() {
 		panic("sync: Unlock of unlocked RWMutex")
 	}
 	m.writer = false
+	if r := rt.Cur(); r != nil {
+		r.Point(rt.Op{Kind: "rw.unlock", Obj: &m.o})
+	}
 }
 
 func (m *RWMutex) RLock() {
@@ -115,6 +124,9 @@ func (m *RWMutex) RUnlock() {
 		panic("sync: RUnlock of unlocked RWMutex")
 	}
 	m.readers--
+	if r := rt.Cur(); r != nil {
+		r.Point(rt.Op{Kind: "rw.runlock", Obj: &m.o})
+	}
 }
 
 func (m *RWMutex) RLocker() sync.Locker { return rlocker{m} }
